@@ -32,8 +32,8 @@ var (
 	storedCls  = []string{"none", "wrong1", "wrongAll", "validAll"}
 	sharesCls  = []string{"none", "k2"}
 	extras     = []string{"none", "gnosis", "service", "optimism"}
-	shareKinds = []string{"valid", "otherKeyper", "otherId", "otherEon", "garbage", "badlen", "undecodable"}
-	keyKinds   = []string{"valid", "storedEqual", "wrong", "badlen", "undecodable"}
+	shareKinds = []string{"valid", "otherKeyper", "otherId", "otherEon", "swap", "garbage", "badlen", "undecodable"}
+	keyKinds   = []string{"valid", "storedEqual", "wrong", "swap", "badlen", "undecodable"}
 	namedSets  = []string{"MemberOk", "NotMember", "NoResult", "Failed", "RestartNoResult", "RestartOk", "Unknown", "Overflow", "Wrap32"}
 )
 
